@@ -987,9 +987,11 @@ fn config_close(a: &SPDCConfig, b: &SPDCConfig, eps: f64) -> Result<(), String> 
 fn fields_rounded(s: &SPDC, c: &SPDCConfig) -> Result<(), String> {
   let bad: std::cell::RefCell<Vec<String>> = std::cell::RefCell::new(vec![]);
   let chk = |name: &str, got: f64, phys: f64| {
+    // the rounded value itself; next to a rounding boundary (x.xxxx5) either neighbour is accepted
     let want = (phys * 1e4).round() / 1e4;
-    // allow one unit in the last place of the 4-decimal grid for the division by the unit
-    if !(got == want || ((got - phys).abs() <= 0.5e-4 * (1.0 + 1e-9) + 1e-12 * phys.abs() && ((got * 1e4).round() / 1e4 - got).abs() <= 1e-12 * got.abs().max(1.0))) {
+    let frac = (phys * 1e4 - (phys * 1e4).floor() - 0.5).abs();
+    let near_tie = frac < 1e-6 && ((got * 1e4).round() / 1e4 == got) && (got - phys).abs() <= 0.5e-4 * (1.0 + 1e-6);
+    if !(got == want || near_tie) {
       bad.borrow_mut().push(format!("field={} got={:?} physical={:?}", name, got, phys));
     }
   };
@@ -1030,17 +1032,39 @@ fn fields_rounded(s: &SPDC, c: &SPDCConfig) -> Result<(), String> {
   }
   match (&s.pp, &c.periodic_poling) {
     (PeriodicPoling::Off, PeriodicPolingConfig::Off) => {}
-    (PeriodicPoling::On { period, .. }, PeriodicPolingConfig::Config { poling_period_um, .. }) => {
-      chk("periodic_poling.poling_period_um", p(poling_period_um), period.value_unsafe / 1e-6)
+    (PeriodicPoling::On { period, apodization, .. }, PeriodicPolingConfig::Config { poling_period_um, apodization: ac }) => {
+      chk("periodic_poling.poling_period_um", p(poling_period_um), period.value_unsafe / 1e-6);
+      match (apodization, ac) {
+        (Apodization::Gaussian { fwhm }, ApodizationConfig::Gaussian { fwhm_um }) => {
+          chk("periodic_poling.apodization.fwhm_um", *fwhm_um, fwhm.value_unsafe / 1e-6)
+        }
+        (a, b) => {
+          // dimensionless window parameters are carried over as they are
+          if apod_tokens(a) != apod_cfg_tokens(b) {
+            bad.borrow_mut().push("field=periodic_poling.apodization differs".into());
+          }
+        }
+      }
     }
     _ => bad.borrow_mut().push("field=periodic_poling on/off-mismatch".into()),
   }
-  chk("deff_pm_per_volt", c.deff_pm_per_volt, s.deff.value_unsafe / 1e-15);
+  chk("deff_pm_per_volt", c.deff_pm_per_volt, s.deff.value_unsafe / (1e-12 / 1000.0));
   let bad = bad.into_inner();
   if bad.is_empty() {
     Ok(())
   } else {
     Err(bad.join(" ; "))
+  }
+}
+
+fn fields_sig(why: &str) -> &'static str {
+  let one = why.matches("field=").count() == 1;
+  if one && why.contains("field=idler.waist_position_um") {
+    "as_config/idler-waist-position-unrounded"
+  } else if one && why.contains("field=periodic_poling.apodization.fwhm_um") {
+    "as_config/gaussian-fwhm-unrounded"
+  } else {
+    "as_config/fields"
   }
 }
 
@@ -1127,12 +1151,7 @@ fn c16_case(ctx: &mut Ctx, d: &Desc) {
   match fields_rounded(&s, &c1) {
     Ok(()) => ctx.s("C16.fields", true, "as_config/fields", &det),
     Err(why) => {
-      let sig = if why.contains("idler.waist_position_um") && why.matches("field=").count() == 1 {
-        "as_config/idler-waist-position-unrounded"
-      } else {
-        "as_config/fields"
-      };
-      ctx.s("C16.fields", false, sig, &format!("{} {}", why, det));
+      ctx.s("C16.fields", false, fields_sig(&why), &format!("{} {}", why, det));
     }
   }
   // second conversion reproduces the configuration
@@ -1353,12 +1372,7 @@ pub fn run(ctx: &mut Ctx) {
       match fields_rounded(&s, &c1) {
         Ok(()) => ctx.s("C16.fields", true, "as_config/fields", "setup=SPDC::default()"),
         Err(why) => {
-          let sig = if why.contains("idler.waist_position_um") && why.matches("field=").count() == 1 {
-            "as_config/idler-waist-position-unrounded"
-          } else {
-            "as_config/fields"
-          };
-          ctx.s("C16.fields", false, sig, &format!("{} setup=SPDC::default()", why));
+          ctx.s("C16.fields", false, fields_sig(&why), &format!("{} setup=SPDC::default()", why));
         }
       }
     }
